@@ -1053,6 +1053,9 @@ class bcrypt_sha256(_wrapped_bcrypt):
 
     @classmethod
     def _norm_version(cls, version):
+        if isinstance(version, str):
+            # e.g. a value read back from a CryptContext's INI export
+            version = int(version)
         if version not in cls._supported_versions:
             raise ValueError(f"{cls.name}: unknown or unsupported version: {version!r}")
         return version
